@@ -287,7 +287,7 @@ func runC16(r *core.Run) {
 	bindRef(r)
 	depth := 4
 	if thorough(r) {
-		depth = 6
+		depth = 7
 	}
 	r.Rule = fmt.Sprintf("all sequences over the 6 non-terminal chunk kinds up to length %d (each closed by the end chunk and realised by the reference generator as concrete bytes whose chunks differ observably if a reset is skipped) + all 256 control bytes as first chunk and as second chunk after a legal first one; oracle = 2-flag specification automaton, cross-checked against the reference decoder and liblzma on every case; writer side: chunk headers of a set of Writer2/xz outputs must be legal. states = automaton states, transitions = (state, kind) steps incl. rejections; non-trivial = distinct (legal, legal-prefix length, outcome class, bytes)", depth)
 	var cases []C16Case
